@@ -149,6 +149,54 @@ Section Fault.
       destruct (kb_rd_data s2 k d K2 Hk Hr) as (Hl & _). apply (kb_fields (set_cdata s2 d)); try reflexivity. apply kb_set_cdata; assumption.
   Qed.
 
+  (* ---- adfFileReadNextBlock under faults, from a state whose cursor is that of a coherent one: the state stays KB whatever happens ---- *)
+  Lemma read_next_kb s : KB s -> 0 <= ndb s < len L -> ext_cursor key s L E (ndb s - 1) ->
+    (ofs = true -> 1 <= ndb s -> d_next (cdata s) = nthZ L (ndb s)) -> KB (snd (read_next bs ofs bad s)).
+  Proof.
+    intros K Hn Hx Hnx. pose proof (kb_cb s K) as C. pose proof C as (B & HL & Kc).
+    destruct (read_next bs ofs bad s) as [[|] sn] eqn:Hr; cbn [snd].
+    - (* it succeeded: it is the fault-free fetch *)
+      apply read_next_mono in Hr.
+      destruct (read_next_ok bs ofs key s L E B Kc Hn Hx Hnx) as (s' & Hr' & D & _ & _ & _ & _ & _ & Hl & _ & C' & F & W & M & _ & Cx).
+      rewrite Hr in Hr'. injection Hr' as <-. destruct K as (K1 & K2 & K3 & K4 & K5 & K6 & K7).
+      unfold KB. repeat split; try congruence; assumption.
+    - (* it failed: the state is s, possibly with an extension block of the file loaded on the way *)
+      pose proof (b_hdr _ _ _ _ _ _ B) as (_ & _ & _ & _ & Hext). pose proof (lenE_of bs ofs key s L E B) as HlE.
+      revert Hr. unfold read_next.
+      destruct (Z.eqb_spec (ndb s) 0) as [H0|H0].
+      { destruct (_ <? 2); [intros Hr; injection Hr as <-; exact K|]. destruct (rd_data bs bad s _); [discriminate|intros Hr; injection Hr as <-; exact K]. }
+      destruct (Z.ltb_spec (ndb s) MAXDB) as [H72|H72].
+      { cbn [negb]. destruct (_ <? 2); [intros Hr; injection Hr as <-; exact K|]. destruct (rd_data bs bad s _); [discriminate|intros Hr; injection Hr as <-; exact K]. }
+      unfold MAXDB in H72.
+      assert (HE1 : 1 <= len E) by (rewrite HlE; destruct (Z.ltb_spec (len L) 1); lia).
+      destruct (Z.eqb_spec (ndb s) MAXDB) as [He|He].
+      { (* the first extension block, from the header *)
+        set (sa := match cext s with None => set_cext s (Some zero_x) | Some _ => s end).
+        assert (Ka : KB sa).
+        { subst sa. destruct (cext s) eqn:Hcx; [exact K|]. destruct K as (H1 & H2 & H3 & H4 & H5 & H6 & H7). unfold KB, cext_ok. cbn. repeat split; try assumption. left. reflexivity. }
+        assert (Hfa : fh sa = fh s) by (subst sa; destruct (cext s); reflexivity).
+        unfold load_ext. rewrite <- Hfa. rewrite Hfa, Hext.
+        destruct (rd_ext bad sa (nthZ E 0)) as [x|] eqn:Hrx.
+        2:{ cbn [negb]. intros Hr. injection Hr as <-. exact Ka. }
+        rewrite (kb_rd_ext sa 0 x Ka ltac:(lia) Hrx). cbn [negb].
+        set (s1 := set_pinx _ _). assert (K1 : KB s1).
+        { subst s1. eapply kb_fields; [apply (kb_set_cext sa 0 Ka); lia| | | | | | |]; reflexivity. }
+        destruct (_ <? 2); [intros Hr; injection Hr as <-; exact K1|]. destruct (rd_data bs bad s1 _); [discriminate|intros Hr; injection Hr as <-; exact K1]. }
+      unfold MAXDB in He. destruct (Hx ltac:(lia)) as (Hcx & Hpx).
+      destruct (Z.eqb_spec (pinx s) MAXDB) as [Hp|Hp].
+      { (* the next extension block, from the buffered one *)
+        unfold MAXDB in Hp. unfold load_ext, cx. rewrite Hcx. cbn [x_ext enc_x].
+        assert (Hj : 0 <= (ndb s - 1 - 72) / 72 + 1 < len E) by (rewrite HlE; destruct (Z.ltb_spec (len L) 1); lia).
+        destruct (rd_ext bad s (nthZ E ((ndb s - 1 - 72) / 72 + 1))) as [x|] eqn:Hrx.
+        2:{ cbn [negb]. intros Hr. injection Hr as <-. exact K. }
+        rewrite (kb_rd_ext s _ x K Hj Hrx). cbn [negb].
+        set (s1 := set_pinx _ _). assert (K1 : KB s1).
+        { subst s1. eapply kb_fields; [apply (kb_set_cext s _ K Hj)| | | | | | |]; reflexivity. }
+        destruct (_ <? 2); [intros Hr; injection Hr as <-; exact K1|]. destruct (rd_data bs bad s1 _); [discriminate|intros Hr; injection Hr as <-; exact K1]. }
+      { cbn [negb]. set (s1 := set_pinx _ _). assert (K1 : KB s1) by (subst s1; apply (kb_fields s); try reflexivity; exact K).
+        destruct (_ <? 2); [intros Hr; injection Hr as <-; exact K1|]. destruct (rd_data bs bad s1 _); [discriminate|intros Hr; injection Hr as <-; exact K1]. }
+  Qed.
+
   (* ---- the fallback walk ---- *)
   Lemma ofs_walk_mono : forall fuel s o tg s', ofs_walk bs ofs bad fuel s o tg = (true, s') -> ofs_walk bs ofs nobad fuel s o tg = (true, s').
   Proof.
@@ -156,6 +204,61 @@ Section Fault.
     destruct (o <? tg); [|exact H]. set (s1 := set_pind _ _) in *.
     destruct (pind s1 =? bs); [|apply IH, H].
     destruct (read_next bs ofs bad s1) as [[|] sn] eqn:Hr; [|discriminate]. rewrite (read_next_mono bs ofs bad _ _ Hr). apply IH, H.
+  Qed.
+
+  (* coherent states of the same file as t *)
+  Definition CohT (s : hstate) : Prop :=
+    Inv bs ofs key s L E /\ Repr bs s L ct /\ chg s = false /\ dk s = dk t /\ fh s = fh t /\ mw s = mw t /\ mr s = mr t.
+
+  Lemma coh_kb s : CohT s -> KB s.
+  Proof.
+    intros (I & _ & Hc & Hd & Hf & Hw & Hr). pose proof I as (B & _ & C). unfold KB. repeat split; try assumption.
+    - apply (b_cext _ _ _ _ _ _ B).
+    - destruct C as [(_ & _ & _ & _ & _ & Hl)|(_ & _ & _ & _ & _ & Hl & _)]; exact Hl.
+  Qed.
+
+  (* the walk under faults from a coherent state: the state stays KB whatever happens *)
+  Lemma ofs_walk_kb target : forall fuel s offset, CohT s -> cur s <> 0 -> pos s = offset -> offset <= target < fsize s -> 0 <= pind s < bs ->
+    KB (snd (ofs_walk bs ofs bad fuel s offset target)).
+  Proof.
+    induction fuel as [|fuel IH]; intros s offset Co Hcu Hp Ht Hpi; [apply coh_kb, Co|]. cbn [ofs_walk].
+    destruct (Z.ltb_spec offset target) as [Hlt|Hge]; [|apply coh_kb, Co].
+    pose proof Co as (I & R & Hc & Hd & Hf & Hw & Hr).
+    set (size := Z.min (target - offset) (bs - pind s)).
+    assert (Hsz : 0 < size /\ size <= target - offset /\ pind s + size <= bs) by (subst size; lia).
+    set (s1 := set_pind (set_pos s (pos s + size)) (pind s + size)).
+    assert (I1 : Inv bs ofs key s1 L E).
+    { destruct I as (B & HL & C'). split; [|split].
+      - apply (base_frame bs ofs key s); try reflexivity. assumption.
+      - exact HL.
+      - destruct C' as [(_ & Hz0 & _)|(Hcu' & Hnn & Hp' & Hpi' & Hps & Hlen & Hcl & Hnx & Hxc)]; [contradiction|].
+        right. subst s1. unfold fsize, ext_cursor in *. simpl. repeat match goal with |- _ /\ _ => split end; try assumption; try lia. }
+    assert (R1 : Repr bs s1 L ct) by (apply (repr_frame bs s); try reflexivity; assumption).
+    assert (Co1 : CohT s1) by (unfold CohT; split; [exact I1|split; [exact R1|subst s1; cbn; repeat split; assumption]]).
+    change (pind s1) with (pind s + size).
+    destruct (Z.eqb_spec (pind s + size) bs) as [Hb|Hb].
+    - (* the next block is fetched - or not *)
+      assert (Hlt1 : pos s1 < fsize s1) by (subst s1; unfold fsize in *; simpl; lia).
+      pose proof (ndb_lt_len bs ofs key Hbs s1 L E I1 Hcu Hb Hlt1) as Hnl.
+      destruct (normal_facts bs ofs key s1 L E I1 Hcu) as (Hcu1 & Hnn1 & _).
+      assert (Hcur1 : ext_cursor key s1 L E (ndb s1 - 1) /\ (ofs = true -> 1 <= ndb s1 -> d_next (cdata s1) = nthZ L (ndb s1))).
+      { destruct I1 as (_ & _ & [(_ & Hz0 & _)|(_ & _ & _ & _ & _ & _ & _ & Hnx & Hxc)]); [contradiction|]. split; [exact Hxc|]. intros Ho _. apply Hnx; assumption. }
+      pose proof (read_next_kb s1 (coh_kb s1 Co1) ltac:(lia) (proj1 Hcur1) (proj2 Hcur1)) as Kn.
+      destruct (read_next bs ofs bad s1) as [[|] sn] eqn:Hrn; cbn [snd] in Kn.
+      + apply read_next_mono in Hrn.
+        destruct (advance_ok bs ofs key Hbs s1 L E ct I1 R1 Hcu Hb Hlt1) as (sn0 & Hrn0 & I2 & R2 & P2 & C2 & Pi2 & F2 & W2 & M2 & Cn).
+        assert (Hset : settle bs ofs s1 = s1) by (unfold settle; change (chg s1) with (chg s); rewrite Hc, andb_false_r; reflexivity).
+        rewrite Hset, Hrn in Hrn0. injection Hrn0 as <-.
+        assert (Heq : set_pind sn 0 = set_chg (set_pind sn 0) false) by (apply state_ext; try reflexivity; cbn; exact Cn).
+        rewrite Heq. set (s2 := set_chg (set_pind sn 0) false) in *.
+        apply IH; try assumption.
+        * destruct Kn as (Kd & _). unfold CohT. split; [exact I2|split; [exact R2|]]. subst s2. cbn. cbn in F2, W2, M2.
+          change (fh s1) with (fh s) in F2. change (mw s1) with (mw s) in W2. change (mr s1) with (mr s) in M2. repeat split; try reflexivity; congruence.
+        * rewrite P2. subst s1. simpl. lia.
+        * unfold fsize in *. rewrite F2. simpl. lia.
+        * rewrite Pi2. lia.
+      + cbn [snd]. apply (kb_fields sn); try reflexivity. exact Kn.
+    - apply IH; try assumption; try (subst s1; simpl; lia). subst s1. unfold fsize in *. simpl. lia.
   Qed.
 
   (* when the first block of the file cannot be fetched the walk cannot fetch it either: it ends without a buffered block, or fails *)
@@ -185,15 +288,17 @@ Section Fault.
   (* ---- a seek to a position inside the file, after the flush: the extension-block path, then - on OFS - the fallback ---- *)
   Theorem seek_inside_faulty eofk s p s' : KB s -> pos s = p -> 0 <= p < fsize s ->
     seek_fb bs ofs bad eofk (seek_mid bs bad s) p = (true, s') -> cur s' <> 0 ->
-    Inv bs ofs key s' L E /\ Repr bs s' L ct /\ pos s' = p.
+    CohT s' /\ pos s' = p /\ 0 <= pind s' < bs.
   Proof.
     intros K Hpos Hp H Hcur. pose proof (kb_cb s K) as C. pose proof K as (Kdk & Kfh & Kc & _ & _ & Kcx & Klen).
     destruct (seek_mid bs bad s) as [[|] s3] eqn:Hm.
     - (* the table-driven seek succeeded: it is the fault-free one *)
       unfold seek_fb in H. cbn [fst negb andb] in H. injection H as <-.
       apply seek_mid_mono in Hm.
-      destruct (seek_mid_ok bs ofs key Hbs s L E C ltac:(lia) Kcx) as (s4 & Hm4 & I4 & P4 & C4 & D4 & F4 & _).
-      rewrite Hm in Hm4. injection Hm4 as <-. split; [exact I4|]. split; [|lia].
+      destruct (seek_mid_ok bs ofs key Hbs s L E C ltac:(lia) Kcx) as (s4 & Hm4 & I4 & P4 & C4 & D4 & F4 & W4 & M4 & _ & Pi4 & _).
+      rewrite Hm in Hm4. injection Hm4 as <-. destruct K as (_ & _ & _ & Kw & Kr & _).
+      split; [|split; [lia|rewrite Pi4; apply Z.mod_pos_bound; lia]].
+      unfold CohT. split; [exact I4|]. split; [|repeat split; congruence].
       apply (repr_clean bs ofs key Hbs t s3 L E ct It Hct I4 C4); [congruence|congruence|exact Rt].
     - (* it failed: only OFS goes on *)
       unfold seek_fb in H. cbn [fst snd negb andb] in H.
@@ -214,15 +319,148 @@ Section Fault.
         destruct (N5 ltac:(rewrite (kb_fsize s3 K3), <- (kb_fsize s K); lia)) as (N1 & N2 & N3).
         assert (R0 : Repr bs s0 L ct) by (apply (repr_clean bs ofs key Hbs t s0 L E ct It Hct I5 C5); [congruence|congruence|exact Rt]).
         apply ofs_walk_mono in H.
-        destruct (ofs_walk_ok bs ofs key Hbs L E ct p (Z.to_nat (p / bs + 2)) s0 0 I5 R0 C5 N3 P5 ltac:(lia) ltac:(lia)) as (s6 & Hw & I6 & R6 & P6 & _).
+        destruct (ofs_walk_ok bs ofs key Hbs L E ct p (Z.to_nat (p / bs + 2)) s0 0 I5 R0 C5 N3 P5 ltac:(lia) ltac:(lia)) as (s6 & Hw & I6 & R6 & P6 & _ & C6 & F6 & W6 & M6 & Pi6).
         { intros _. rewrite N2. pose proof (Z.div_mod p bs ltac:(lia)). pose proof (Z.mod_pos_bound p bs Hbs). pose proof (Z.div_pos p bs ltac:(lia) Hbs).
           rewrite Z2Nat.id by lia. nia. }
-        rewrite H in Hw. injection Hw as <-. split; [exact I6|]. split; [exact R6|exact P6].
+        pose proof (ofs_walk_same bs ofs nobad (Z.to_nat (p / bs + 2)) s0 0 p) as (D6 & _). rewrite H in D6. cbn [snd] in D6.
+        rewrite H in Hw. injection Hw as <-. destruct K3 as (_ & _ & _ & K3w & K3r & _).
+        split; [|split; [exact P6|exact Pi6]]. unfold CohT. split; [exact I6|]. split; [exact R6|]. repeat split; congruence.
       + (* the first block cannot be fetched: the walk ends without a buffered block *)
         exfalso. destruct (seek_start_fail_dead s3 s0 Hss) as (Hc0 & Hn0 & Hf0 & Hb0).
         assert (Hfs : fsize s0 = fsize s) by (unfold fsize; rewrite Hf0; destruct K3 as (_ & K3fh & _); rewrite K3fh, Kfh; reflexivity).
         rewrite Hfs in H. replace (Z.min p (fsize s)) with p in H by lia. destruct (Z.eqb_spec p (fsize s)); [lia|].
         apply Hcur. apply (ofs_walk_dead (Z.to_nat (p / bs + 2)) s0 0 p s' Hc0 Hn0); [rewrite Hf0; exact Hb0|exact H].
+  Qed.
+
+  (* ---- what a failing seek leaves: a KB state, whichever way it failed ---- *)
+  Lemma ofs_walk_dead_kb : forall fuel s o tg, KB s -> cur s = 0 -> ndb s = 0 ->
+    (h_first (fh s) <? 2) || (h_first (fh s) <? 1) || bad (h_first (fh s)) = true -> KB (snd (ofs_walk bs ofs bad fuel s o tg)).
+  Proof.
+    induction fuel as [|f IH]; intros s o tg K Hc Hn Hb; [exact K|]. cbn [ofs_walk].
+    destruct (o <? tg); [|exact K]. set (s1 := set_pind _ _).
+    assert (K1 : KB s1) by (apply (kb_fields s); try reflexivity; exact K).
+    destruct (pind s1 =? bs).
+    - unfold read_next. change (ndb s1) with (ndb s). rewrite Hn. cbn [Z.eqb negb andb]. rewrite andb_false_r.
+      change (fh s1) with (fh s). destruct (h_first (fh s) <? 2) eqn:H2; [cbn [negb snd]; apply (kb_fields s1); try reflexivity; exact K1|].
+      unfold rd_data. cbn [orb] in Hb. rewrite Hb. cbn [negb snd]. apply (kb_fields s1); try reflexivity; exact K1.
+    - apply IH; try assumption; reflexivity.
+  Qed.
+
+  Lemma seek_ofs_kb eofk s p : KB s -> 0 <= p < fsize s -> KB (snd (seek_ofs bs ofs bad eofk s p)).
+  Proof.
+    intros K Hp. unfold seek_ofs. pose proof (seek_start_kb s K) as K0.
+    destruct (seek_start bs ofs bad s) as [[|] s0] eqn:Hss; cbn [snd] in *.
+    - apply seek_start_mono in Hss. pose proof K as (Kdk & Kfh & Kc & Kw & Kr & Kcx & Klen).
+      destruct (seek_start_cb bs ofs key Hbs s L E (kb_cb s K) Kcx Klen) as (s5 & Hs5 & I5 & P5 & C5 & D5 & F5 & W5 & M5 & N5).
+      rewrite Hss in Hs5. injection Hs5 as <-.
+      assert (Hf0 : fsize s0 = fsize s) by (unfold fsize; rewrite F5; reflexivity).
+      rewrite Hf0. replace (Z.min p (fsize s)) with p by lia. destruct (Z.eqb_spec p (fsize s)); [lia|].
+      destruct (N5 ltac:(lia)) as (N1 & N2 & N3).
+      assert (R0 : Repr bs s0 L ct) by (apply (repr_clean bs ofs key Hbs t s0 L E ct It Hct I5 C5); [congruence|congruence|exact Rt]).
+      apply ofs_walk_kb; try assumption; try lia. unfold CohT. split; [exact I5|]. split; [exact R0|]. repeat split; congruence.
+    - destruct (seek_start_fail_dead s s0 Hss) as (Hc0 & Hn0 & Hf0 & Hb0).
+      assert (Hfs : fsize s0 = fsize s) by (unfold fsize; rewrite Hf0; reflexivity).
+      rewrite Hfs. replace (Z.min p (fsize s)) with p by lia. destruct (Z.eqb_spec p (fsize s)); [lia|].
+      apply ofs_walk_dead_kb; try assumption. rewrite Hf0. exact Hb0.
+  Qed.
+
+  (* ---- adfFileSeek to a position inside the file from a clean state that is coherent or without a buffered block, with any position field:
+          what it leaves is KB; if it reports success with a buffered block, that is the block of the position ---- *)
+  Definition Weak (s : hstate) : Prop := KB s /\ (cur s = 0 \/ CohT s).
+
+  Theorem seek_gen_inside eofk s q p : Weak s -> (q = pos s \/ q <> p) -> 0 <= p < fsize s ->
+    KB (snd (seek_gen bs ofs bad eofk (set_pos s q) p)) /\
+    (fst (seek_gen bs ofs bad eofk (set_pos s q) p) = true -> cur (snd (seek_gen bs ofs bad eofk (set_pos s q) p)) <> 0 ->
+     CohT (snd (seek_gen bs ofs bad eofk (set_pos s q) p)) /\ pos (snd (seek_gen bs ofs bad eofk (set_pos s q) p)) = p
+     /\ 0 <= pind (snd (seek_gen bs ofs bad eofk (set_pos s q) p)) < bs).
+  Proof.
+    intros (K & Hw) Hq Hp. pose proof K as (Kdk & Kfh & Kc & Kw & Kr & Kcx & Klen).
+    assert (Kq : KB (set_pos s q)) by (apply (kb_fields s); try reflexivity; exact K).
+    unfold seek_gen. change (pos (set_pos s q)) with q. change (cur (set_pos s q)) with (cur s). change (pind (set_pos s q)) with (pind s).
+    change (ndb (set_pos s q)) with (ndb s). change (mw (set_pos s q)) with (mw s). change (chg (set_pos s q)) with (chg s).
+    change (fsize (set_pos s q)) with (fsize s).
+    destruct ((q =? p) && negb (cur s =? 0) && negb (pind s =? bs)) eqn:H1.
+    { (* already there *)
+      apply andb_prop in H1. destruct H1 as (H1 & H3). apply andb_prop in H1. destruct H1 as (H1 & H2). apply Z.eqb_eq in H1.
+      destruct (Z.eqb_spec (cur s) 0) as [|Hc]; [discriminate|]. destruct Hw as [Hz|Co]; [contradiction|].
+      destruct Hq as [Hq|Hq]; [|contradiction]. assert (Heq : set_pos s q = s) by (apply state_ext; try reflexivity; cbn; exact Hq).
+      rewrite Heq. cbn [fst snd]. split; [exact K|]. intros _ _. split; [exact Co|]. split; [lia|].
+      destruct Co as (I & _). destruct (normal_facts bs ofs key s L E I Hc) as (_ & _ & _ & Hpi & _). destruct (Z.eqb_spec (pind s) bs); [discriminate|lia]. }
+    destruct (negb (cur s =? 0) && ((if 0 <? ndb s then ndb s - 1 else 0) =? p / bs)) eqn:H2.
+    { (* inside the buffered block *)
+      apply andb_prop in H2. destruct H2 as (H2 & H3). destruct (Z.eqb_spec (cur s) 0) as [|Hc]; [discriminate|]. destruct Hw as [Hz|Co]; [contradiction|].
+      destruct Co as (I & R & Cc & Cd & Cf & Cw & Cr). apply Z.eqb_eq in H3.
+      destruct (normal_facts bs ofs key s L E I Hc) as (Hcu & Hnn & Hpos & Hpi & Hle). destruct (Z.ltb_spec 0 (ndb s)); [|lia].
+      replace (Z.min p (fsize s)) with p by lia. cbn [fst snd].
+      set (s' := set_pind (set_pos (set_pos s q) p) (p mod bs)).
+      pose proof (Z.mod_pos_bound p bs Hbs) as Hpm. pose proof (Z.div_mod p bs ltac:(lia)) as Hdm.
+      assert (I' : Inv bs ofs key s' L E).
+      { pose proof I as (B & HL & C). split; [apply (base_frame bs ofs key s); try reflexivity; assumption|]. split; [exact HL|].
+        destruct C as [(_ & Hz & _)|(_ & _ & _ & _ & _ & Hlen & Hcl & Hnx & Hxc)]; [contradiction|]. right. subst s'. unfold fsize, ext_cursor in *. cbn.
+        repeat match goal with |- _ /\ _ => split end; try assumption; try lia. }
+      assert (R' : Repr bs s' L ct) by (apply (repr_frame bs s); try reflexivity; assumption).
+      assert (Co' : CohT s') by (unfold CohT; split; [exact I'|split; [exact R'|subst s'; cbn; repeat split; assumption]]).
+      split; [apply coh_kb, Co'|]. intros _ _. split; [exact Co'|]. subst s'. cbn. split; [reflexivity|lia]. }
+    assert (Hset : (if mw s && chg s then set_chg (fio_flush bs ofs (set_pos s q)) false else set_pos s q) = set_pos s q) by (rewrite Kc, andb_false_r; reflexivity).
+    rewrite Hset.
+    destruct (Z.eqb_spec p 0) as [H0|H0].
+    { (* to the start *)
+      pose proof (seek_start_kb (set_pos s q) Kq) as K0. split; [exact K0|]. intros Hok Hcur.
+      destruct (seek_start bs ofs bad (set_pos s q)) as [[|] s0] eqn:Hss; [|discriminate]. cbn [fst snd] in *.
+      apply seek_start_mono in Hss. pose proof Kq as (_ & _ & _ & _ & _ & Qcx & Qlen).
+      destruct (seek_start_cb bs ofs key Hbs (set_pos s q) L E (kb_cb _ Kq) Qcx Qlen) as (s5 & Hs5 & I5 & P5 & C5 & D5 & F5 & W5 & M5 & N5).
+      rewrite Hss in Hs5. injection Hs5 as <-. destruct (N5 ltac:(change (fsize (set_pos s q)) with (fsize s); lia)) as (N1 & N2 & N3).
+      assert (R0 : Repr bs s0 L ct) by (apply (repr_clean bs ofs key Hbs t s0 L E ct It Hct I5 C5); [cbn in D5; congruence|cbn in F5; congruence|exact Rt]).
+      split; [|split; [lia|lia]]. unfold CohT. split; [exact I5|]. split; [exact R0|]. cbn in D5, F5, W5, M5. repeat split; congruence. }
+    (* the table-driven seek, then the fallback *)
+    cbv zeta. change (fsize (set_pos s q)) with (fsize s). replace (Z.min p (fsize s)) with p by lia.
+    change (set_pos (set_pos s q) p) with (set_pos s p).
+    change (pos (set_pos s p)) with p. change (fsize (set_pos s p)) with (fsize s). destruct (Z.eqb_spec p (fsize s)); [lia|].
+    assert (Kp : KB (set_pos s p)) by (apply (kb_fields s); try reflexivity; exact K).
+    split.
+    - unfold seek_fb. pose proof (seek_mid_kb (set_pos s p) Kp ltac:(change (pos (set_pos s p)) with p; change (fsize (set_pos s p)) with (fsize s); lia)) as K3.
+      destruct (negb (fst (seek_mid bs bad (set_pos s p))) && ofs); [|exact K3].
+      apply seek_ofs_kb; [exact K3|]. rewrite (kb_fsize _ K3), <- (kb_fsize s K). lia.
+    - intros Hok Hcur.
+      destruct (seek_fb bs ofs bad eofk (seek_mid bs bad (set_pos s p)) p) as [[|] s'] eqn:Hfb; [|discriminate]. cbn [fst snd] in *.
+      apply (seek_inside_faulty eofk (set_pos s p) p s' Kp eq_refl ltac:(change (fsize (set_pos s p)) with (fsize s); lia) Hfb Hcur).
+  Qed.
+
+  (* ---- adfFileSeekEOF_: seek to size - 1, then step on to the end ---- *)
+  Lemma eof_adjust s : CohT s -> cur s <> 0 -> pos s = fsize s - 1 -> 0 <= pind s < bs -> 0 < fsize s ->
+    CohT (set_pind (set_pos s (fsize s)) (if fsize s mod bs =? 0 then bs else fsize s mod bs)).
+  Proof.
+    intros (I & R & Cc & Cd & Cf & Cw & Cr) Hc Hp Hpi Hsz.
+    destruct (normal_facts bs ofs key s L E I Hc) as (Hcu & Hnn & Hpos & _ & Hle).
+    set (pe := if fsize s mod bs =? 0 then bs else fsize s mod bs).
+    assert (Hpe : pe = pind s + 1).
+    { subst pe. assert (Hfs : fsize s = (ndb s - 1) * bs + (pind s + 1)) by lia.
+      destruct (Z.eq_dec (pind s + 1) bs) as [He|He].
+      - assert (Hm : fsize s mod bs = 0) by (rewrite Hfs, He; replace ((ndb s - 1) * bs + bs) with (ndb s * bs + 0) by lia; apply (mod_block bs); lia).
+        rewrite Hm. cbn. lia.
+      - assert (Hm : fsize s mod bs = pind s + 1) by (rewrite Hfs; apply (mod_block bs); lia). rewrite Hm. destruct (Z.eqb_spec (pind s + 1) 0); lia. }
+    set (s' := set_pind (set_pos s (fsize s)) pe).
+    assert (I' : Inv bs ofs key s' L E).
+    { pose proof I as (B & HL & C). split; [apply (base_frame bs ofs key s); try reflexivity; assumption|]. split; [exact HL|].
+      destruct C as [(_ & Hz & _)|(_ & _ & _ & _ & _ & Hlen & Hcl & Hnx & Hxc)]; [contradiction|]. right. subst s'. unfold fsize, ext_cursor in *. cbn.
+      repeat match goal with |- _ /\ _ => split end; try assumption; try lia. }
+    assert (R' : Repr bs s' L ct) by (apply (repr_frame bs s); try reflexivity; assumption).
+    unfold CohT. split; [exact I'|]. split; [exact R'|]. subst s'. cbn. repeat split; assumption.
+  Qed.
+
+  Theorem seek_eof_faulty s q : Weak s -> (q = pos s \/ q <> fsize s - 1) -> 0 < fsize s ->
+    KB (snd (seek_eof bs ofs bad (set_pos s q))) /\
+    (fst (seek_eof bs ofs bad (set_pos s q)) = true -> cur (snd (seek_eof bs ofs bad (set_pos s q))) <> 0 ->
+     CohT (snd (seek_eof bs ofs bad (set_pos s q))) /\ pos (snd (seek_eof bs ofs bad (set_pos s q))) = fsize s).
+  Proof.
+    intros W Hq Hsz. unfold seek_eof. change (fsize (set_pos s q)) with (fsize s). destruct (Z.eqb_spec (fsize s) 0); [lia|].
+    destruct (seek_gen_inside (fun u => (false, u)) s q (fsize s - 1) W Hq ltac:(lia)) as (Ki & Hi).
+    destruct (seek_gen bs ofs bad (fun u => (false, u)) (set_pos s q) (fsize s - 1)) as [[|] si] eqn:Hg; cbn [fst snd negb] in *.
+    - assert (Hfi : fsize si = fsize s) by (rewrite (kb_fsize si Ki); destruct W as (K & _); rewrite (kb_fsize s K); reflexivity).
+      split; [apply (kb_fields si); try reflexivity; exact Ki|]. intros _ Hc. cbn [cur set_pind set_pos] in Hc.
+      destruct (Hi eq_refl Hc) as (Co & Pi & Pd). rewrite <- Hfi in Pi.
+      split; [apply (eof_adjust si Co Hc Pi Pd); lia|]. cbn. exact Hfi.
+    - split; [exact Ki|]. intros Hd. discriminate.
   Qed.
 End Fault.
 
@@ -261,20 +499,85 @@ Section Top.
     - cbv zeta in H. rewrite Hft in H. replace (Z.min p (fsize s)) with p in H by lia.
       change (pos (set_pos t p)) with p in H. change (fsize (set_pos t p)) with (fsize t) in H. rewrite Hft in H.
       destruct (Z.eqb_spec p (fsize s)); [lia|].
-      apply (seek_inside_faulty bs ofs key Hbs bad L E ct t It Hct Rt (seek_eof bs ofs bad) (set_pos t p) p s'); try assumption; try reflexivity.
+      destruct (seek_inside_faulty bs ofs key Hbs bad L E ct t It Hct Rt (seek_eof bs ofs bad) (set_pos t p) p s') as ((I' & R' & _) & P' & _); try assumption; try reflexivity.
       + apply (kb_fields bs key L E t t); try reflexivity. apply (kb_t bs ofs key L E t It Hct).
       + change (fsize (set_pos t p)) with (fsize t). lia.
+      + split; [exact I'|]. split; [exact R'|exact P'].
+  Qed.
+
+  (* ... and to the end of the file or beyond it: adfFileSeekEOF_ seeks to size - 1 and steps on; when that fails, the fallback goes back to the
+     start and calls adfFileSeekEOF_ again from what the failed attempt left *)
+  Theorem fio_seek_faulty_eof s L E ct p s' : Inv bs ofs key s L E -> Repr bs s L ct -> 0 < fsize s <= p ->
+    fio_seek bs ofs bad s p = (true, s') -> cur s' <> 0 -> Inv bs ofs key s' L E /\ Repr bs s' L ct /\ pos s' = fsize s.
+  Proof.
+    intros I R Hp H Hcur.
+    destruct (fio_seek_ok bs ofs key Hbs s L E ct p I R ltac:(lia)) as (s1 & H1 & I1 & R1 & P1 & _).
+    replace (Z.min p (fsize s)) with (fsize s) in P1 by lia.
+    unfold fio_seek, seek_gen in H, H1.
+    destruct ((pos s =? p) && negb (cur s =? 0) && negb (pind s =? bs)).
+    { rewrite H in H1. injection H1 as <-. split; [exact I1|]. split; [exact R1|exact P1]. }
+    destruct (negb (cur s =? 0) && ((if 0 <? ndb s then ndb s - 1 else 0) =? p / bs)).
+    { rewrite H in H1. injection H1 as <-. split; [exact I1|]. split; [exact R1|exact P1]. }
+    clear H1 I1 R1 P1 s1.
+    destruct (settle_ok bs ofs key Hbs s L E I) as (It & Hct & (Spos & Spinx & Spind & Sndb & Scur & Scext & Sfh & Smw & Smr & Sby & Snx) & Htr).
+    change (if mw s && chg s then set_chg (fio_flush bs ofs s) false else s) with (settle bs ofs s) in H.
+    set (t := settle bs ofs s) in *.
+    assert (Rt : Repr bs t L ct).
+    { apply (repr_same bs Hbs s t L ct); [unfold fsize; rewrite Sfh; reflexivity|destruct I as (_ & HL & _); exact HL|exact Htr|exact R]. }
+    assert (Hft : fsize t = fsize s) by (unfold fsize; rewrite Sfh; reflexivity).
+    destruct (Z.eqb_spec p 0) as [H0|H0]; [lia|].
+    cbv zeta in H. rewrite Hft in H. replace (Z.min p (fsize s)) with (fsize s) in H by lia.
+    change (pos (set_pos t (fsize s))) with (fsize s) in H. change (fsize (set_pos t (fsize s))) with (fsize t) in H. rewrite Hft, Z.eqb_refl in H.
+    assert (Cot : CohT bs ofs key L E ct t t) by (unfold CohT; split; [exact It|split; [exact Rt|repeat split; assumption]]).
+    assert (Wt : Weak bs ofs key L E ct t t) by (split; [apply (kb_t bs ofs key L E t It Hct)|right; exact Cot]).
+    destruct (seek_eof_faulty bs ofs key Hbs bad L E ct t It Hct Rt t (fsize s) Wt ltac:(right; lia) ltac:(lia)) as (Kr & Hr).
+    destruct (seek_eof bs ofs bad (set_pos t (fsize s))) as [[|] sr] eqn:Hse; cbn [fst snd] in *.
+    - (* the first attempt succeeded *)
+      unfold seek_fb in H. cbn [fst negb andb] in H. injection H as <-.
+      destruct (Hr eq_refl Hcur) as ((I' & R' & _) & P'). split; [exact I'|]. split; [exact R'|lia].
+    - (* it failed: the OFS fallback - back to the start, adfFileSeekEOF_ again *)
+      unfold seek_fb in H. cbn [fst snd negb andb] in H.
+      assert (H' : seek_ofs bs ofs bad (seek_eof bs ofs bad) sr p = (true, s')).
+      { destruct (Bool.bool_dec ofs true) as [Hofs|Hofs].
+        - revert H. generalize (seek_ofs bs ofs bad (seek_eof bs ofs bad) sr p). intros r H. rewrite Hofs in H. exact H.
+        - apply Bool.not_true_is_false in Hofs. revert H. generalize (seek_ofs bs ofs bad (seek_eof bs ofs bad) sr p). intros r H. rewrite Hofs in H. discriminate. }
+      clear H. unfold seek_ofs in H'.
+      pose proof (seek_start_kb bs ofs key Hbs bad L E t It Hct sr Kr) as K0.
+      assert (W0 : Weak bs ofs key L E ct t (snd (seek_start bs ofs bad sr))).
+      { split; [exact K0|]. destruct (seek_start bs ofs bad sr) as [[|] s0] eqn:Hss; cbn [snd] in *.
+        - right. apply seek_start_mono in Hss. pose proof Kr as (Rdk & Rfh & Rc & Rw & Rr & Rcx & Rlen).
+          destruct (seek_start_cb bs ofs key Hbs sr L E (kb_cb bs ofs key L E t It Hct sr Kr) Rcx Rlen) as (s5 & Hs5 & I5 & P5 & C5 & D5 & F5 & W5 & M5 & N5).
+          rewrite Hss in Hs5. injection Hs5 as <-.
+          assert (R0 : Repr bs s0 L ct) by (apply (repr_clean bs ofs key Hbs t s0 L E ct It Hct I5 C5); [congruence|congruence|exact Rt]).
+          unfold CohT. split; [exact I5|]. split; [exact R0|]. repeat split; congruence.
+        - left. apply (seek_start_fail_dead bs ofs bad sr s0 Hss). }
+      set (s0 := snd (seek_start bs ofs bad sr)) in *.
+      assert (Hf0 : fsize s0 = fsize s) by (rewrite (kb_fsize bs key L E t s0 K0); exact Hft).
+      rewrite Hf0 in H'. replace (Z.min p (fsize s)) with (fsize s) in H' by lia. rewrite Z.eqb_refl in H'.
+      assert (Heq : set_pos s0 (pos s0) = s0) by (apply state_ext; reflexivity).
+      destruct (seek_eof_faulty bs ofs key Hbs bad L E ct t It Hct Rt s0 (pos s0) W0 ltac:(left; reflexivity) ltac:(lia)) as (_ & Hr0).
+      rewrite Heq, H' in Hr0. cbn [fst snd] in Hr0.
+      destruct (Hr0 eq_refl Hcur) as ((I' & R' & _) & P'). split; [exact I'|]. split; [exact R'|lia].
+  Qed.
+
+  (* both together *)
+  Theorem fio_seek_faulty s L E ct p s' : Inv bs ofs key s L E -> Repr bs s L ct -> 0 <= p -> 0 < fsize s ->
+    fio_seek bs ofs bad s p = (true, s') -> cur s' <> 0 -> Inv bs ofs key s' L E /\ Repr bs s' L ct /\ pos s' = Z.min p (fsize s).
+  Proof.
+    intros I R Hp Hsz H Hcur. destruct (Z.ltb_spec p (fsize s)) as [Hlt|Hge].
+    - replace (Z.min p (fsize s)) with p by lia. apply (fio_seek_faulty_inside s L E ct p s' I R ltac:(lia) H Hcur).
+    - replace (Z.min p (fsize s)) with (fsize s) by lia. apply (fio_seek_faulty_eof s L E ct p s' I R ltac:(lia) H Hcur).
   Qed.
 
   (* ... so the read that follows - itself under any fault set - returns a prefix of the file's true bytes at that position: fewer bytes,
      never wrong ones (C19), whether the seek went through the tables or through the OFS fallback *)
-  Corollary seek_then_read_faulty bad2 s L E ct p s' n : Inv bs ofs key s L E -> Repr bs s L ct -> 0 <= p < fsize s -> 0 <= n ->
+  Corollary seek_then_read_faulty bad2 s L E ct p s' n : Inv bs ofs key s L E -> Repr bs s L ct -> 0 <= p -> 0 < fsize s -> 0 <= n ->
     fio_seek bs ofs bad s p = (true, s') ->
-    exists s'' m, fio_read bs ofs bad2 s' n = (s'', sub ct p m) /\ 0 <= m <= Z.max 0 (Z.min n (fsize s - p)).
+    exists s'' m, fio_read bs ofs bad2 s' n = (s'', sub ct (Z.min p (fsize s)) m) /\ 0 <= m <= Z.max 0 (Z.min n (fsize s - Z.min p (fsize s))).
   Proof.
-    intros I R Hp Hn H. destruct (Z.eq_dec (cur s') 0) as [Hc|Hc].
+    intros I R Hp Hsz Hn H. destruct (Z.eq_dec (cur s') 0) as [Hc|Hc].
     - exists s', 0. split; [|lia]. unfold fio_read. rewrite Hc. cbn [Z.eqb]. rewrite !orb_true_r. unfold sub. cbn. reflexivity.
-    - destruct (fio_seek_faulty_inside s L E ct p s' I R Hp H Hc) as (I' & R' & P').
+    - destruct (fio_seek_faulty s L E ct p s' I R Hp Hsz H Hc) as (I' & R' & P').
       destruct (fio_read_faulty bs ofs key Hbs bad2 s' L E ct n I' R' Hn) as (s'' & r & m & Hrd & Hm & Hr & _).
       assert (Hf : fsize s' = fsize s) by (destruct R as (Hl & _); destruct R' as (Hl' & _); lia).
       exists s'', m. rewrite P' in Hr, Hm. rewrite Hf in Hm. subst r. split; [exact Hrd|exact Hm].
